@@ -1333,7 +1333,13 @@ func RunC20(cfg Config) (*ShardResult, error) {
 				}
 				vs, inc := e.judge(sc, r, races[i])
 				if inc {
-					if hv := e.confirmHang(sc); hv != nil {
+					hv := e.confirmHang(sc)
+					if hv == nil && i > 0 {
+						// not alone: together with everything that ran before it in this child (a resource that leaks a
+						// little with every call is exhausted by the history, not by one scenario)
+						hv = e.confirmHang(combine(append(append([]C20Scenario{}, batch[:i]...), sc)))
+					}
+					if hv != nil {
 						res.Violations = append(res.Violations, *hv)
 						res.Extra["hangs_confirmed_sequentially"]++
 					} else {
